@@ -221,3 +221,14 @@ CHECKS["C14"] = {
               {"name": "c14w", "pkg": ".", "overlay": "root", "run": "^TestVerifWiringC14$", "shards": 2}],
     "expect_checks": ["c14.reload", "c14.wiring"],
 }
+
+CHECKS["C12"] = {
+    "level": "exploration",
+    "technique": "model-based property testing (rapid under testing/synctest) with a peer-side window ledger: a raw HTTP/2 peer (x/net v0.19.0 framer) drives the fork's http2.Server.ServeConn (downloads of 0..1 MiB in drawn chunks on up to 8 streams, uploads with padded/unpadded DATA against handlers that read all / some / nothing / close early, WINDOW_UPDATE on streams and connection incl. overflow attempts, SETTINGS_INITIAL_WINDOW_SIZE from 0 to 2^31-1 incl. changes that drive open windows negative, SETTINGS_MAX_FRAME_SIZE, RST_STREAM mid-body) and, mirrored, the fork's Transport.NewClientConn (uploads, responses read fully / partly / cancelled); every step ends at quiescence and every DATA / WINDOW_UPDATE / RST_STREAM / GOAWAY frame is judged against the ledger",
+    "rule": "case = operation history on one connection. Non-trivial = a window reaches <= 0 with data still queued (and later reopens), or a stream is reset mid-body, or INITIAL_WINDOW_SIZE changes with streams open; distinct by hash of the history.",
+    "level_text": "Generated histories with an exact ledger: DATA never above stream window, connection window or the max frame size in force (settings switch at the SETTINGS ACK); at quiescence nothing deliverable is left undelivered; bodies arrive complete and unaltered once windows open; a window pushed above 2^31-1 or DATA beyond the advertised window draws a FLOW_CONTROL_ERROR; un-returned connection credit never exceeds unread bytes held by live handlers + 4096.",
+    "level_note": "Trusted: the ledger in harness/c12 (RFC 9113 section 5.2/6.9), x/net v0.19.0 framer as the peer's codec, testing/synctest quiescence. The harness owns the schedule: steps are separated by quiescence, so interleavings of whole steps are explored, not instruction-level races.",
+    "assumptions": ["the 4096-byte bound is the implementation's documented refresh threshold (inflowMinRefresh); the statement only asks for 'a small fixed bound'"],
+    "units": [{"name": "c12", "pkg": "c12", "run": "^Test", "shards": 12}],
+    "expect_checks": ["c12.server", "c12.transport"],
+}
